@@ -229,12 +229,17 @@ CountryClass == [ZAM |-> {"TrafficSignIDGermany"}, DEU |-> {"TrafficSignIDGerman
 
 (* ------------------------------ numbers ------------------------------------------------------------------- *)
 NumToks == <<"zero", "one", "tenth", "half", "ordinary", "tiny", "small", "big", "long", "neg", "angle">>
-PositiveToks == {"one", "tenth", "half", "ordinary", "tiny", "small", "big", "long", "angle"}
-NumLex(t) == IF t \in {"zero", "default0"} THEN "dec0" ELSE IF t = "neg" THEN "dec-" ELSE "dec+"   \* plain decimal, never "exp"
+(* near twins: differ from their partner by less than 1e-10 (or by the sign of zero) but are different doubles - shapes *)
+(* compare equal on 10 decimals, the protobuf format must still reproduce every bit                                   *)
+NearPairs == {<<"zero", "negzero">>, <<"ordinary", "ordinary2">>, <<"one", "one2">>, <<"half", "half2">>, <<"p3", "p3b">>,
+              <<"angle", "angle2">>}
+NearToks == <<"negzero", "ordinary2", "one2", "half2", "p3", "p3b", "angle2">>
+PositiveToks == {"one", "tenth", "half", "ordinary", "tiny", "small", "big", "long", "angle", "ordinary2", "one2", "half2", "p3", "p3b", "angle2"}
+NumLex(t) == IF t \in {"zero", "default0", "negzero"} THEN "dec0" ELSE IF t = "neg" THEN "dec-" ELSE "dec+"   \* plain decimal, never "exp"
 (* interval end points: lo < hi for the concrete table *)
 IntervalPairs == {<<"neg", "one">>, <<"zero", "ordinary">>, <<"tiny", "small">>, <<"one", "big">>, <<"half", "angle">>}
 (* orientations of shapes lie in [-2pi, 2pi], angle intervals are at most 2pi long (documented constructor preconditions) *)
-AngleToks  == {"zero", "one", "tenth", "half", "tiny", "small", "neg", "angle"}
+AngleToks  == {"zero", "one", "tenth", "half", "tiny", "small", "neg", "angle", "negzero", "one2", "half2", "p3", "p3b", "angle2"}
 AnglePairs == {<<"neg", "one">>, <<"tiny", "small">>, <<"half", "angle">>}
 
 (* ------------------------------ state attributes ------------------------------------------------------------ *)
@@ -703,7 +708,16 @@ Renumber(d, tok) ==
 (* READER reuse (route = "reader"): reader R is created on write#1 and opened once (first = "open" / "open_lanelet_network"), *)
 (* the edited scenario is written to the SAME path by a fresh writer, R.open() again must yield the edited scenario; *)
 (* edit "none": nothing is rewritten, the second open() must agree with the file.                                     *)
-EditTokens == <<"add_network", "remove_obstacle", "translate", "light_offset", "add_pp", "none">>
+(* TWIN (route = "twin", edit "none"): before the case is written, its near twin (every number token replaced by its   *)
+(* NearPairs partner) is written by a different writer object in the same process.                                   *)
+(* remove_sign / remove_light / remove_lanelet go through the Scenario API, which cleans the references in place.    *)
+EditTokens == <<"add_network", "remove_obstacle", "translate", "light_offset", "add_pp", "none", "remove_sign", "remove_light",
+                "remove_lanelet">>
+RemoveId(ids, x) == SelectSeq(ids, LAMBDA i : i # x)
+AllRefsToLanelets(d) ==
+  UNION {Range(inc.lan) \cup Range(inc.r) \cup Range(inc.s) \cup Range(inc.l) : inc \in UNION {Range(x.incs) : x \in Range(d.inters)}}
+  \cup UNION {Range(x.cross) : x \in Range(d.inters)} \cup UNION {Range(sg.first) : sg \in Range(d.signs)}
+  \cup UNION {Range(gl.lan) : gl \in UNION {Range(p.goals) : p \in Range(d.pps)}}
 EditSignId(cid) == LET ok == {i \in DOMAIN SignIdT : SignIdT[i].c \in CountryClass[cid] /\ SignIdT[i].v \in EnumTrafficSignID /\ SignIdT[i].pb}
                    IN SignIdT[CHOOSE i \in ok : \A j \in ok : i <= j]
 NewLanelet == [id |-> 5, nv |-> 2, geo |-> "one", lml |-> "SOLID", lmr |-> "DASHED", pred |-> <<>>, succ |-> <<>>, adjL |-> <<>>, adjR |-> <<>>,
@@ -720,6 +734,11 @@ NewPP == [id |-> 95,
           g |-> [lanNone |-> 1]]
 EditApplicable(d, tok) == CASE tok = "remove_obstacle" -> d.obstacles # <<>>
                             [] tok = "light_offset" -> d.lights # <<>>
+                            [] tok = "remove_sign" -> d.signs # <<>>
+                            [] tok = "remove_light" -> d.lights # <<>>
+                            \* the second lanelet, when only lanelets refer to it (predecessor / successor / adjacent) and it owns nothing
+                            [] tok = "remove_lanelet" -> /\ Len(d.lanelets) >= 2 /\ d.lanelets[2].id \notin AllRefsToLanelets(d)
+                                                         /\ d.lanelets[2].signs = <<>> /\ d.lanelets[2].lights = <<>> /\ d.lanelets[2].stop = <<>>
                             \* StopLine.translate_rotate raises for a stop line without points (observed; belongs to C05, not asserted here)
                             [] tok = "translate" -> \A i \in DOMAIN d.lanelets : \A j \in DOMAIN d.lanelets[i].stop : d.lanelets[i].stop[j].pts = 1
                             [] OTHER -> tok \in Range(EditTokens)
@@ -729,12 +748,25 @@ Edit(d, tok) ==
     [] tok = "remove_obstacle" -> [d EXCEPT !.obstacles = Tail(@)]
     [] tok = "translate" -> d                  \* lanelet network moved by a lattice vector: same tokens, other coordinates
     [] tok = "none" -> d
+    [] tok = "remove_sign" -> LET x == d.signs[1].id IN
+         [d EXCEPT !.signs = Tail(@),
+                   !.lanelets = Map(@, LAMBDA la : [la EXCEPT !.signs = RemoveId(@, x),
+                                                              !.stop = Map(@, LAMBDA st : [st EXCEPT !.sref = RemoveId(@, x)])])]
+    [] tok = "remove_light" -> LET x == d.lights[1].id IN
+         [d EXCEPT !.lights = Tail(@),
+                   !.lanelets = Map(@, LAMBDA la : [la EXCEPT !.lights = RemoveId(@, x),
+                                                              !.stop = Map(@, LAMBDA st : [st EXCEPT !.lref = RemoveId(@, x)])])]
+    [] tok = "remove_lanelet" -> LET x == d.lanelets[2].id
+                                     unadj(a) == IF a # <<>> /\ a[1].id = x THEN <<>> ELSE a IN
+         [d EXCEPT !.lanelets = Map(SelectSeq(@, LAMBDA la : la.id # x),
+                                    LAMBDA la : [la EXCEPT !.pred = RemoveId(@, x), !.succ = RemoveId(@, x), !.adjL = unadj(@), !.adjR = unadj(@)])]
     [] tok = "light_offset" -> [d EXCEPT !.lights[1].off = @ + 2]
     [] tok = "add_pp" -> [d EXCEPT !.pps = SortById(@ \o <<NewPP>>)]
 EditOf(d, ru) == IF ru = <<>> THEN d ELSE Edit(d, ru[1].edit)
 WrittenBy(d, ru) == IF ru # <<>> /\ ru[1].w2 = "scenario" THEN [EditOf(d, ru) EXCEPT !.pps = <<>>] ELSE EditOf(d, ru)
 ReuseOK(d, ru) == ru = <<>> \/ (/\ EditApplicable(d, ru[1].edit) /\ ru[1].w2 \in {"full", "scenario"} /\ WellFormed(EditOf(d, ru))
-                                 /\ ru[1].route \in {"writer", "reader"} /\ ru[1].first \in {"open", "open_lanelet_network"})
+                                 /\ ru[1].route \in {"writer", "reader", "twin"} /\ ru[1].first \in {"open", "open_lanelet_network"}
+                                 /\ (ru[1].route = "twin" => ru[1].edit = "none"))
 
 (* ------------------------------ C03: the document the contract demands ------------------------------------------- *)
 (* AbstractDoc(d): element entries (Xsd2020a) of an XML document that carries every XML-carried leaf of d, children in *)
